@@ -8,13 +8,17 @@ def macro_sites(crate, body, names):
     """ordered list of {site, name, snippet, node} for every distinct outermost macro call in `body`
     whose outermost macro name is in `names` (evaluation/pre-order of first node)"""
     out = []
-    seen = set()
+    seen = {}          # site -> ids of all nodes below an occurrence already recorded
     for n in walk(body):
         m = n.get("mac")
         if not m or "names" not in m:
             continue
-        if m["names"][-1] in names and m["site"] not in seen:
-            seen.add(m["site"])
+        if m["names"][-1] in names:
+            below = seen.setdefault(m["site"], set())
+            if id(n) in below:
+                continue
+            # a new occurrence of this call site (the first one, or another copy of an inlined helper)
+            below.update(id(x) for x in walk(n))
             out.append({"site": m["site"], "name": m["names"][-1], "snippet": crate.macros.get(m["site"], ""), "node": n})
     return out
 
